@@ -27,7 +27,11 @@ type cellVal struct {
 // alt is one alternative: a class of paths described by the facts/effects that
 // hold on all of them and the memory they agree on.
 type alt struct {
-	atoms  term.Set
+	atoms term.Set
+	// may: effects (calls, stores) that happened on SOME of the paths merged into this class but not on all of
+	// them. atoms is a must-set (facts and effects common to all merged paths); a rule that forbids an effect
+	// has to look at atoms ∪ may, otherwise a write on one of several merged failing paths would be forgotten.
+	may    term.Set
 	cells  map[int32]cellVal
 	heap   map[term.ID]term.ID
 	frame  map[ssa.Value]term.ID
@@ -36,7 +40,7 @@ type alt struct {
 }
 
 func (a *alt) clone() *alt {
-	n := &alt{atoms: a.atoms, impure: a.impure}
+	n := &alt{atoms: a.atoms, may: a.may, impure: a.impure}
 	n.cells = maps.Clone(a.cells)
 	if n.cells == nil {
 		n.cells = map[int32]cellVal{}
@@ -63,6 +67,7 @@ type Event struct {
 	Args   []term.ID     // receiver first
 	Call   term.ID       // the call term
 	Atoms  term.Set      // before the call
+	May    term.Set      // effects on some of the merged paths only (see alt.may)
 	Inline bool
 	Stack  []string // enclosing inlined functions, outermost first
 	Kind   string   // "call", "panic", "return", "store", "go"
@@ -71,6 +76,7 @@ type Event struct {
 
 type ret struct {
 	atoms   term.Set
+	may     term.Set
 	cells   map[int32]cellVal
 	heap    map[term.ID]term.ID
 	results []term.ID
@@ -101,6 +107,7 @@ type Engine struct {
 	stackNames []string
 	Warnings   map[string]int
 	Steps      int
+	Merges     int // path classes merged because more than K reached one program point (facts are intersected there)
 	nilT       term.ID
 	trueT      term.ID
 	falseT     term.ID
@@ -208,6 +215,7 @@ type RunResult struct {
 type Ret struct {
 	Atoms   term.Set
 	Results []term.ID
+	May     term.Set // effects performed on some, not all, of the paths merged into this class
 }
 
 func (e *Engine) Run(fn *ssa.Function) *RunResult {
@@ -219,7 +227,7 @@ func (e *Engine) Run(fn *ssa.Function) *RunResult {
 	res := e.runFunc(fn, 0, args, nil, a, 0)
 	rr := &RunResult{Fn: fn, Events: res.events, E: e}
 	for _, r := range res.rets {
-		rr.Rets = append(rr.Rets, &Ret{Atoms: r.atoms, Results: r.results})
+		rr.Rets = append(rr.Rets, &Ret{Atoms: r.atoms, Results: r.results, May: r.may})
 	}
 	return rr
 }
@@ -343,7 +351,7 @@ func (e *Engine) runFunc(fn *ssa.Function, site int32, args []term.ID, fvs []ter
 	}()
 
 	act := &activation{e: e, fn: fn, site: site, depth: depth}
-	start := &alt{atoms: in.atoms, cells: in.cells, heap: in.heap, frame: map[ssa.Value]term.ID{}}
+	start := &alt{atoms: in.atoms, may: in.may, cells: in.cells, heap: in.heap, frame: map[ssa.Value]term.ID{}}
 	start = start.clone()
 	start.impure = false
 	start.defers = nil
@@ -687,14 +695,17 @@ func (e *Engine) join(as []*alt, k int) []*alt {
 	if len(as) <= 1 {
 		return as
 	}
-	seen := map[string]bool{}
+	seen := map[string]*alt{}
 	var out []*alt
 	for _, a := range as {
 		key := altKey(e, a)
-		if seen[key] {
+		if kept, ok := seen[key]; ok {
+			if len(a.may) > 0 {
+				kept.may = kept.may.Union(a.may)
+			}
 			continue
 		}
-		seen[key] = true
+		seen[key] = a
 		out = append(out, a)
 	}
 	if len(out) > k {
@@ -722,6 +733,7 @@ func (e *Engine) join(as []*alt, k int) []*alt {
 			alive[i] = true
 		}
 		cnt := n
+		e.Merges += n - k
 		for cnt > k {
 			bi, bj, best, first := 0, 1, 0, true
 			for i := 0; i < n; i++ {
@@ -975,6 +987,15 @@ func (e *Engine) merge(a, b *alt) *alt {
 	} else {
 		n.atoms = e.generalise(a.atoms, b.atoms)
 	}
+	// effects that only one side performed are remembered as "may have happened"
+	n.may = a.may.Union(b.may)
+	for _, side := range []term.Set{a.atoms, b.atoms} {
+		for _, id := range side {
+			if !n.atoms.Has(id) && e.isEffect(id) {
+				n.may = n.may.Add(id)
+			}
+		}
+	}
 	n.cells = map[int32]cellVal{}
 	for k, va := range a.cells {
 		if vb, ok := b.cells[k]; ok {
@@ -1027,6 +1048,19 @@ func (e *Engine) merge(a, b *alt) *alt {
 	return n
 }
 
+// isEffect: the atom records something that was done (an opaque impure call, a store through a pointer, a map
+// update), as opposed to a fact that was learnt.
+func (e *Engine) isEffect(id term.ID) bool {
+	tm := e.T.Get(id)
+	switch {
+	case strings.HasPrefix(tm.Op, "call:"):
+		return true
+	case tm.Op == "store" || tm.Op == "mapset" || tm.Op == "mapdel" || tm.Op == "go":
+		return true
+	}
+	return false
+}
+
 // ---------------------------------------------------------------- returns
 
 type retClass struct {
@@ -1036,7 +1070,7 @@ type retClass struct {
 }
 
 func (act *activation) addRet(a *alt, results []term.ID) {
-	r := &ret{atoms: a.atoms, cells: a.cells, heap: a.heap, results: results, impure: a.impure}
+	r := &ret{atoms: a.atoms, may: a.may, cells: a.cells, heap: a.heap, results: results, impure: a.impure}
 	act.rets = append(act.rets, r)
 }
 
@@ -1120,7 +1154,7 @@ func (e *Engine) joinRets(rs []*ret, k int, site int32) []*ret {
 	// reuse alt merge: encode results in the frame via synthetic keys
 	as := make([]*alt, len(rs))
 	for i, r := range rs {
-		as[i] = &alt{atoms: r.atoms, cells: r.cells, heap: r.heap, frame: map[ssa.Value]term.ID{}, impure: r.impure}
+		as[i] = &alt{atoms: r.atoms, may: r.may, cells: r.cells, heap: r.heap, frame: map[ssa.Value]term.ID{}, impure: r.impure}
 		for j, t := range r.results {
 			as[i].frame[resultKey(j)] = t
 		}
@@ -1137,7 +1171,7 @@ func (e *Engine) joinRets(rs []*ret, k int, site int32) []*ret {
 				res[j] = 0 // disagreement: caller substitutes a call-based term
 			}
 		}
-		out[i] = &ret{atoms: a.atoms, cells: a.cells, heap: a.heap, results: res, impure: a.impure, errState: rs[0].errState}
+		out[i] = &ret{atoms: a.atoms, may: a.may, cells: a.cells, heap: a.heap, results: res, impure: a.impure, errState: rs[0].errState}
 	}
 	return out
 }
